@@ -16,7 +16,8 @@ RULE = (
     "non-trivial = a co-running strategy placed an order on a runner A also traded, or the injected exception fired; distinct = distinct case digests"
 )
 ASSUMPTIONS = [
-    "co-running strategies share streams (same listener arguments) and one simulated client without transaction limit",
+    "co-running strategies share streams (same listener arguments) and one simulated client without transaction limit in half of the World A scenarios; the others do not share markets, the client, or the stream (listener arguments of their own: sequential replays of the same file, or - half of these - interleaved in one event group)",
+    "a ledger difference is filed under the known F30 site only when the market was delivered by two or more streams AND the observed strategy was shown exactly the same market books alone and together",
     "80% World A (30% of its single-market cases replay recorded race data through flumine's SimulatedSportsDataMiddleware, with the exception injected into check_sports_data/process_sports_data in 60% of those); 20% World B live sessions (exception injected into check/process market book, process_new_market, process_orders during current-orders processing, custom-event callbacks, an extra market middleware in 40% of them (the exception thrown from it in half of those) and, in a third of them, process_raw_data of a raw-data (DataStream) strategy; delivery of every market update / raw datum to the other strategies checked); in another quarter check_sports_data/process_sports_data of a race-subscription strategy (rcm messages through the real bflw race stream; cricket data is not generated)",
     "process_closed_market is not among the callbacks the property lists and is not injected",
 ]
